@@ -223,6 +223,14 @@ def _match(exp, out, env, W):
     if kind == "normal":
         # a normal return (not a panic); the value is not constrained
         return True
+    if kind == "self_after":
+        try:
+            cur = guards.apply_effects(out[2], env, W)
+        except guards.PanicReached:
+            return False
+        if cur is guards.OPAQUE:
+            return None
+        return cur == exp[1]
     raise ValueError(exp)
 
 
